@@ -72,6 +72,9 @@ def classify_diff(path):
     return "mutates-argument"
 
 
+OBSERVED = {}
+
+
 def observe(data):
     return snap.canon(data), snap.identity_map(data)
 
@@ -84,7 +87,9 @@ def compare_before_after(before, after, tag, viols):
     moved = [p for p in ib if p in ia and ib[p] != ia[p]]
     gone = [p for p in ib if p not in ia]
     if moved or gone:
-        viols.append(_v("member-identity", f"{tag}: members replaced by other objects: {(moved + gone)[:4]}"))
+        # observation only: the statement speaks of values and contents; a member replaced by an equal object changes neither
+        # (a replaced member with different contents is reported by the snapshot comparison above)
+        OBSERVED["members_replaced_by_equal_objects"] = OBSERVED.get("members_replaced_by_equal_objects", 0) + 1
 
 
 def equivalent(data, written, rng):
